@@ -1,5 +1,6 @@
 import Mp.CacheProofs
 import Mp.CacheKeyProofs
+import Mp.Tree
 /-! C16 — CueValidate is a deterministic function of its arguments: the caches are unobservable. -/
 #print axioms Mp.memo_spec
 #print axioms Mp.step_spec
@@ -7,3 +8,13 @@ import Mp.CacheKeyProofs
 #print axioms Mp.cache_transparent
 #print axioms Mp.memoK_injective
 #print axioms Mp.memoK_collision_observable
+#print axioms Mp.Tree.hasErrors_step
+#print axioms Mp.Tree.call_hasErrors
+#print axioms Mp.Tree.param_hasErrors
+#print axioms Mp.Tree.call_param_anywhere
+#print axioms Mp.Tree.logic_hasErrors
+#print axioms Mp.Tree.path_hasErrors
+#print axioms Mp.Tree.hasErrors_sound
+#print axioms Mp.Tree.hasErrors_complete
+#print axioms Mp.Tree.hasErrors_eq_anyNode
+#print axioms Mp.Tree.ident_filter_not_consulted
